@@ -35,7 +35,7 @@ def arithTy (opt : Bool) (op : BinOp) (t1 t3 : Ty) : Ty :=
   else .mixed
 
 def typeOf (opt : Bool) (lt gt : List Ty) : Expr R → Ty
-  | .lit (.int _) => .int
+  | .lit (.int n) => if n == 0 then .mixed else .int      -- CREATE_NUMBER: the literal 0 is typed TYPE_ANY (it is also the null value)
   | .lit (.real _) => .real
   | .lit (.str _) => .str
   | .lit _ => .mixed
